@@ -1148,6 +1148,9 @@ public:
 	m_lhs(lhs), m_region(region), m_size(size), m_alloc_site(as) {
     this->m_live.add_def(m_lhs);
     this->m_live.add_use(m_region);
+    if (m_size.is_variable()) {
+      this->m_live.add_use(m_size.get_variable());
+    }
   }
 
   const variable_t &lhs() const { return m_lhs; }
